@@ -1,9 +1,10 @@
-\* constants: calibrated on the unchanged tree, see harness/drive/c05/judge.go
-\* (the driver writes the configuration it uses; this file documents the defaults)
+\* The driver writes the configuration it uses (harness/drive/c05/judge.go,
+\* envelopeCfg: constants calibrated on the unchanged tree); this file holds the
+\* same values for manual runs:  CASES=records.ndjson OUT=verdict.ndjson tlc -config Trace_Envelope.cfg Trace_Envelope.tla
 SPECIFICATION Spec
-CONSTANTS CpuFloorUs = 3000000
-  CpuPerKiBUs = 100000
-  AllocFloorKiB = 98304
-  AllocPerKiB = 8192
+CONSTANTS CpuFloorUs = 10000000
+  CpuPerKiBUs = 40000
+  AllocFloorKiB = 163840
+  AllocPerKiB = 4096
   MaxLenKiB = 65536
 CHECK_DEADLOCK FALSE
